@@ -189,6 +189,8 @@ class _Tunnel(Interface):
             # a pending `connect()` has no tunnel to lose - it reports the failure itself
             return
         if self.auto_reconnect:
+            # the connection is gone - no heartbeat until the reconnect task runs
+            self.stop_heartbeat()
             # _tunnel_lost might be called multiple times when the transport receives
             # multiple invalid frames - ensure only one reconnect task is started
             # a finished task whose done callback has not run yet is not a reconnect in progress
